@@ -355,12 +355,16 @@ func ruleBTReg(c *Ctx) {
 			}
 		}
 	}
-	if !c.Anchor(okv != nil && cfv != nil, "registry[typ] lookup in the dispatcher") {
+	dispatchFolded := btRegByFold(c, root.Fn)
+	if !dispatchFolded && !c.Anchor(okv != nil && cfv != nil, "registry[typ] lookup in the dispatcher") {
 		return
 	}
 	tp := root.TypParam.Name()
 	sp := "*(&" + root.Schema.Name() + "->Type)"
 	for _, p := range root.Paths {
+		if dispatchFolded {
+			break
+		}
 		r := P.classifyReturn(p)
 		if r.Delegate == nil {
 			continue
@@ -431,6 +435,9 @@ func ruleBTReg(c *Ctx) {
 		}
 	}
 	for b := range unconsulted {
+		if dispatchFolded {
+			break
+		}
 		seen := map[string]bool{}
 		for _, p := range b.Paths {
 			r := P.classifyReturn(p)
@@ -758,4 +765,160 @@ func sgRegByFold(P *Program) (folded, good bool, why string) {
 		}
 	}
 	return true, good, why
+}
+
+// btRegByFold decides BT-REG's dispatch clauses by folding the dispatcher
+// (E-CP) for every schema type and a few Go types: in every outcome that
+// builds a codec the codec registry has been asked about the Go type itself
+// (and, for arrays and maps, about the element type); when the type is found
+// registered, the registered builder is called with the dispatcher's own
+// arguments and what it returns is returned as it stands.
+func btRegByFold(c *Ctx, root *ssa.Function) bool {
+	P := c.P
+	schemaNT := P.NamedType(P.Avro, "Schema")
+	if root == nil || schemaNT == nil || len(root.Params) != 3 || registryKey == "" {
+		return false
+	}
+	schemaT := types.Type(schemaNT)
+	sst := schemaT.Underlying().(*types.Struct)
+	var objT types.Type
+	for i := 0; i < sst.NumFields(); i++ {
+		if sst.Field(i).Name() == "Object" {
+			if pt, ok := sst.Field(i).Type().Underlying().(*types.Pointer); ok {
+				objT = pt.Elem()
+			}
+		}
+	}
+	if objT == nil {
+		return false
+	}
+	sch := func(t string, extra map[string]cpVal, obj map[string]cpVal) cpVal {
+		f := map[string]cpVal{"Type": cpStr{t}}
+		for k, v := range extra {
+			f[k] = v
+		}
+		if obj != nil {
+			f["Object"] = cpPtrTo(cpStructOf(objT, obj), objT)
+		}
+		return cpStructOf(schemaT, f)
+	}
+	long := sch("long", nil, nil)
+	isRegistry := func(v cpVal) bool {
+		u, ok := v.(cpUnk)
+		return ok && strings.HasPrefix(u.ID, "*global:") && strings.HasSuffix(u.ID, "."+strings.SplitN(registryKey, ".", 2)[1])
+	}
+	i64 := cpRTypeOfKind(reflect.Int64, false)
+	type kase struct {
+		st    string
+		s     cpVal
+		rt    *cpRType
+		also  *cpRType // a second type that must be asked about (element type)
+		tname string
+	}
+	sliceT, mapT, strT := cpRTypeOfKind(reflect.Slice, false), cpRTypeOfKind(reflect.Map, false), cpRTypeOfKind(reflect.String, false)
+	ptrT := &cpRType{ID: "*int64", Kind: int64(reflect.Ptr), Elem: i64, Size: 8}
+	var cases []kase
+	for _, st := range []string{"boolean", "int", "long", "float", "double", "bytes", "string", "fixed", "record"} {
+		var obj map[string]cpVal
+		if st == "fixed" {
+			obj = map[string]cpVal{"Size": cpInt{4}}
+		}
+		if st == "record" {
+			obj = map[string]cpVal{"Name": cpStr{"R"}}
+		}
+		cases = append(cases, kase{st, sch(st, nil, obj), i64, nil, "int64"})
+	}
+	cases = append(cases,
+		kase{"array", sch("array", nil, map[string]cpVal{"Items": long}), sliceT, sliceT.Elem, "[]int64"},
+		kase{"map", sch("map", nil, map[string]cpVal{"Values": long}), mapT, mapT.Elem, "map[string]int64"},
+		kase{"union", sch("union", map[string]cpVal{"Union": cpSlice{Elems: []*cpCell{{V: sch("null", nil, nil), T: schemaT}, {V: sch("string", nil, nil), T: schemaT}}}}, nil), strT, nil, "string"},
+		kase{"long/ptr", long, ptrT, nil, "*int64"},
+	)
+	type verdict struct {
+		key, good, bad string
+		ok             bool
+	}
+	var vs []verdict
+	cpMaxOutcomes = 512
+	defer func() { cpMaxOutcomes = 96 }()
+	for _, k := range cases {
+		outs, _, ok, _ := cpFoldOpt(P, root, []cpVal{k.s, k.rt, cpUnk{ID: "arg:omit"}}, nil)
+		if !ok {
+			return false
+		}
+		good, why := true, ""
+		sawHit := false
+		asked := k.rt
+		if k.st == "long/ptr" {
+			asked = k.rt.Elem // pointers are unwrapped first: the element type is what is looked up
+		}
+		for _, o := range outs {
+			if o.Panics || len(o.Results) != 2 {
+				continue
+			}
+			if _, errNil := o.Results[1].(cpNil); !errNil {
+				// errors are fine, and so is a registered builder's own (unknown) error
+				if _, unk := o.Results[1].(cpUnk); !unk {
+					continue
+				}
+			}
+			keys := map[*cpRType]bool{}
+			var first *cpCall
+			for i := range o.Calls {
+				cl := &o.Calls[i]
+				if cl.Callee == "maplookup" && isRegistry(cl.Args[0]) {
+					if rt, isRT := cl.Args[1].(*cpRType); isRT {
+						keys[rt] = true
+						if first == nil && rt == asked {
+							first = cl
+						}
+					}
+				}
+			}
+			if !keys[asked] {
+				good, why = false, fmt.Sprintf("for schema %s and a Go %s a codec is built without the codec registry having been asked about that type: a codec registered for it is bypassed", k.st, k.tname)
+				continue
+			}
+			tup, _ := first.Result.(cpTuple)
+			if len(tup.Vs) != 2 {
+				return false
+			}
+			okU, _ := tup.Vs[1].(cpUnk)
+			if o.Decided[okU.ID] {
+				// registered: the builder found is called with the dispatcher's own arguments, its result returned
+				called := false
+				for _, cl := range o.Calls {
+					if cl.Fun == nil || cl.Fun != tup.Vs[0] || len(cl.Args) != 3 {
+						continue
+					}
+					rtup, _ := cl.Result.(cpTuple)
+					if len(rtup.Vs) == 2 && cl.Args[1] == cpVal(asked) && (k.st == "long/ptr" || o.Results[0] == rtup.Vs[0]) {
+						if u, isU := cl.Args[2].(cpUnk); isU && u.ID == "arg:omit" {
+							called = true
+						}
+					}
+				}
+				if k.st != "long/ptr" && k.st != "union" {
+					sawHit = true
+					if !called {
+						good, why = false, fmt.Sprintf("for a registered Go %s under schema %s the registered builder is not called with the dispatcher's own (schema, typ, omit), or its codec is not what is returned", k.tname, k.st)
+					}
+				}
+				continue
+			}
+			if k.also != nil && !keys[k.also] {
+				if _, errNil := o.Results[1].(cpNil); errNil {
+					good, why = false, fmt.Sprintf("for schema %s the element type of a %s is not looked up in the codec registry: the element codec is not built through the dispatcher", k.st, k.tname)
+				}
+			}
+		}
+		if !sawHit && k.st != "long/ptr" && k.st != "union" {
+			good, why = false, fmt.Sprintf("no outcome calls a registered builder for schema %s and a Go %s", k.st, k.tname)
+		}
+		vs = append(vs, verdict{key: fmt.Sprintf("%s/dispatch[%s]", fnKey(root), k.st), ok: good, good: fmt.Sprintf("dispatcher folded for schema %s and a Go %s: the registry is asked about the type before a built-in codec is built; a registered builder gets the dispatcher's own arguments and its codec is returned", k.st, k.tname), bad: why})
+	}
+	for _, v := range vs {
+		c.Check(v.ok, v.key, P.pos(root.Pos()), v.good, v.bad)
+	}
+	return true
 }
